@@ -26,6 +26,9 @@ TasksOf(O, w) == {t \in Rng(O.tk) : t.wf = w}
 KidsAx(O, t)  == {a \in Rng(O.ax) : a.task = t}
 KidsWf(O, t)  == {w \in Rng(O.wf) : w.parent = t}
 Sids(S)       == {x.sid : x \in S}
+\* children of a task, actions and sub-workflows alike, reduced to what with-items accounting looks at
+Kids(O, t)    == {[sid |-> a.sid, idx |-> a.idx, state |-> a.state, accepted |-> a.accepted] : a \in KidsAx(O, t)} \cup
+                 {[sid |-> w.sid, idx |-> w.idx, state |-> w.state, accepted |-> w.accepted] : w \in KidsWf(O, t)}
 
 (* ------------------------------- C01 ---------------------------------- *)
 \* once everything in flight has been delivered no execution is left unfinished
@@ -45,8 +48,19 @@ LegalWf(a, b, what) ==
   \/ <<a, b>> \in {<<"IDLE", "RUNNING">>, <<"RUNNING", "PAUSED">>, <<"RUNNING", "SUCCESS">>, <<"RUNNING", "ERROR">>,
                    <<"RUNNING", "CANCELLED">>, <<"PAUSED", "RUNNING">>, <<"PAUSED", "ERROR">>, <<"PAUSED", "CANCELLED">>}
   \/ (a \in {"ERROR", "CANCELLED"} /\ b = "RUNNING" /\ what = "rerun")
+\* every committed change of an execution's state AND every individual state write made inside the
+\* step (decoded from the UPDATE statements) follows the table; writes of one step form a chain
+\* from the previously committed state to the newly committed one
+WfWrites(ev, sid) == SelectSeq(ev.writes, LAMBDA x : x.kind = "wf" /\ x.sid = sid)
 WfMoves(P, O, ev) ==
-  /\ \A w \in Rng(O.wf) : Has(Rng(P.wf), w.sid) => LegalWf(By(Rng(P.wf), w.sid).state, w.state, ev.what)
+  /\ \A w \in Rng(O.wf) : Has(Rng(P.wf), w.sid) =>
+        LET prev == By(Rng(P.wf), w.sid).state
+            ws   == WfWrites(ev, w.sid)
+            chain == <<prev>> \o [i \in 1..Len(ws) |-> ws[i].to]
+        IN IF Len(ws) = 0 \/ ev.exc # "none"
+           THEN LegalWf(prev, w.state, ev.what)
+           ELSE /\ \A i \in 1..(Len(chain) - 1) : LegalWf(chain[i], chain[i + 1], ev.what)
+                /\ chain[Len(chain)] = w.state
   /\ \A i \in DOMAIN ev.writes : LET wr == ev.writes[i] IN
         (wr.kind = "wf" /\ wr.frm # "") => LegalWf(wr.frm, wr.to, ev.what)
 ResultOnce(P, O) ==
@@ -95,6 +109,11 @@ OnlyNeededOnce(D, O) ==
 DupNoEffect(P, O, ev) == (ev.dup /\ ev.what # "run_action") => (Rng(O.wf) = Rng(P.wf) /\ Rng(O.tk) = Rng(P.tk) /\ Rng(O.ax) = Rng(P.ax))
 NoDoubleDispatch(O)   == \A a \in Rng(O.ax) : a.disp <= 1
 
+\* a task without retry / items / rerun starts its action (or sub-workflow) once
+StartOnce(D, O, rerunSeen) ==
+  \A t \in Rng(O.tk) : (D.tasks[t.name].retry = 0 /\ D.tasks[t.name].items = -1 /\ ~rerunSeen /\ ~t.isJoin) =>
+     Cardinality(KidsAx(O, t.sid)) + Cardinality(KidsWf(O, t.sid)) <= 1
+
 (* ------------------------------- C07 ---------------------------------- *)
 Live(s) == s \in {"RUNNING", "IDLE", "PAUSED", "DELAYED", "WAITING"}
 WithinLimit(D, O) ==
@@ -103,18 +122,21 @@ WithinLimit(D, O) ==
         <= D.tasks[t.name].conc
 OnePerIndex(D, O, rerunSeen) ==
   \A t \in Rng(O.tk) : D.tasks[t.name].items >= 0 =>
-     /\ \A a, b \in KidsAx(O, t.sid) : (a.accepted /\ b.accepted /\ a.idx = b.idx) => a.sid = b.sid
-     /\ \A a \in KidsAx(O, t.sid) : a.idx >= 0 /\ a.idx < D.tasks[t.name].items
+     /\ \A a, b \in Kids(O, t.sid) : (a.accepted /\ b.accepted /\ a.idx = b.idx) => a.sid = b.sid
+     /\ \A a \in Kids(O, t.sid) : a.idx >= 0 /\ a.idx < D.tasks[t.name].items
      /\ (D.tasks[t.name].retry = 0 /\ ~rerunSeen) =>
-           \A a, b \in KidsAx(O, t.sid) : a.idx = b.idx => a.sid = b.sid
+           \A a, b \in Kids(O, t.sid) : a.idx = b.idx => a.sid = b.sid
 CompleteAfterAll(D, O) ==
-  \A t \in Rng(O.tk) : (D.tasks[t.name].items >= 0 /\ t.state \in {"SUCCESS", "ERROR"}) =>
-     /\ \A a \in KidsAx(O, t.sid) : ~Live(a.state) \/ ~a.accepted
+  \* (t.wiCount >= 0: the task did start iterating - a with-items task can also fail before that,
+  \*  e.g. as a join whose inbound route died)
+  \A t \in Rng(O.tk) : (D.tasks[t.name].items >= 0 /\ t.state \in {"SUCCESS", "ERROR"} /\ t.wiCount >= 0) =>
+     /\ \A a \in Kids(O, t.sid) : ~Live(a.state) \/ ~a.accepted
      /\ (By(Rng(O.wf), t.wf).state \notin Final \/ t.state = "SUCCESS") =>
-           Cardinality({a.idx : a \in {x \in KidsAx(O, t.sid) : x.accepted}}) = D.tasks[t.name].items
+           Cardinality({a.idx : a \in {x \in Kids(O, t.sid) : x.accepted}}) = D.tasks[t.name].items
 WithItemsFinalState(D, O) ==
-  \A t \in Rng(O.tk) : (D.tasks[t.name].items >= 0 /\ t.state \in Final /\ t.info = "") =>
-     LET acc == {a \in KidsAx(O, t.sid) : a.accepted} IN
+  \A t \in Rng(O.tk) : (D.tasks[t.name].items >= 0 /\ t.state \in Final /\ t.wiCount >= 0
+                          /\ By(Rng(O.wf), t.wf).state \notin Final) =>
+     LET acc == {a \in Kids(O, t.sid) : a.accepted} IN
        t.state = IF \E a \in acc : a.state = "CANCELLED" THEN "CANCELLED"
                  ELSE IF \E a \in acc : a.state = "ERROR" THEN "ERROR" ELSE "SUCCESS"
 
